@@ -181,6 +181,17 @@ Section EVAL.
                    end
           | _ => unsup "pop_back"
           end
+        else if String.eqb name "cb" then
+          (* harness callback: returns its argument, or throws the configured exception on the n-th invocation *)
+          t <- Prim PTick ;;
+          match t with
+          | None => match o with Some ob => new_value ob false true | None => dispatch_error "cb" end
+          | Some kd =>
+              if String.eqb kd "boxed" then v <- new_value (ONum "int" (TI 32 true) (VI 77)) false false ;; throw (EBoxed v)
+              else if String.eqb kd "eval_error" then eval_error "injected"
+              else if String.eqb kd "foreign" then throw (EForeign "injected")
+              else throw (EStd kd "injected")
+          end
         else if String.eqb name "what" then
           match o with
           | Some (OExc _ _ w) => new_value (OStr w) false true
@@ -556,12 +567,13 @@ Section EVAL.
       ok <- match cl_guard cl with
             | None => Ret true
             | Some g =>
-                (* test_guard swallows every exception; a non-boolean guard value counts as false *)
+                (* test_guard: only arity_error and bad_boxed_cast mean "does not apply" (so does a non-boolean
+                   guard value, through boxed_cast<bool>); every other exception leaves the call *)
                 Handle (call_closure cl args g)
                   (fun r => match r with
-                            | inl d => Handle (obj_of d) (fun o => match o with inl (Some (OBool b)) => Ret b | inr (FUnsup w) => Fail (FUnsup w) | _ => Ret false end)
-                            | inr (FUnsup w) => Fail (FUnsup w)
-                            | inr _ => Ret false
+                            | inl d => o <- obj_of d ;; match o with Some (OBool b) => Ret b | _ => Ret false end
+                            | inr (FThrow (EStd "bad_boxed_cast" _)) | inr (FThrow (EStd "arity_error" _)) => Ret false
+                            | inr f => Fail f
                             end)
             end ;;
       if ok : bool then d <- call_closure cl args (cl_body cl) ;; Ret (Some d) else Ret None.
@@ -702,6 +714,7 @@ Section EVAL.
                   else if String.eqb ty "out_of_range" then "out_of_range"
                   else if String.eqb ty "runtime_error" then "runtime_error" else "exception" in
         new_value (OExc st ty w) true false
+    | EForeign w => new_value (OExc "foreign" "foreign" w) true false   (* never reached: eval_try does not box foreign exceptions *)
     end.
 
   Definition known_type (ty : string) : bool :=
@@ -745,6 +758,7 @@ Section EVAL.
     Scoped (
       Handle (Ev (child 0 n))
         (fun r => match r with
+                  | inr (FThrow (EForeign w)) => run_finally fin r      (* catch (...): finally, then rethrow *)
                   | inr (FThrow e) =>
                       Handle (ex <- box_exception e ;; handle_exception clauses ex)
                         (fun h => match h with
